@@ -95,6 +95,9 @@ type Scenario struct {
 	ExtraConfig  string    `json:"-"`
 	// ProcessLevel: every generation is its own OS process running run.Run, stopped with SIGTERM (procagent.go)
 	ProcessLevel bool `json:"process_level,omitempty"`
+	// InputAddField: the schema ends with one more field, "zone", which nothing but an addFields step among the INPUT's
+	// extractions writes ("Z-<host>"); delivered records may carry it (C17: a reload that moves such a field must be refused)
+	InputAddField bool `json:"input_add_field,omitempty"`
 }
 
 // ---------- observation ----------
@@ -278,8 +281,13 @@ func ConfigYAML(sc Scenario, root string, upAddrs []string) string {
 	if len(mk) == 0 {
 		mk = []string{"host"}
 	}
+	zoneField, zoneStep := "", ""
+	if sc.InputAddField {
+		zoneField = ", zone"
+		zoneStep = "      - type: addFields\n        fields:\n          zone: Z-$host\n"
+	}
 	fmt.Fprintf(&b, `schema:
-  fields: [facility, level, time, host, app, pid, source, extradata, log, class]
+  fields: [facility, level, time, host, app, pid, source, extradata, log, class%s]
   maxFields: 12
 inputs:
   - type: syslog
@@ -291,7 +299,7 @@ inputs:
         pattern: '\[*\] '
         maxLen: 40
         destKey: class
-orchestration:
+%sorchestration:
   type: byKeySet
   keys: [app, level]
   tag: t.$app.$level
@@ -311,7 +319,7 @@ transformations:
     key: log
     metricLabel: redacted
 %soutputBufferPairs:
-`, strings.Join(mk, ", "), sc.ExtraConfig)
+`, zoneField, zoneStep, strings.Join(mk, ", "), sc.ExtraConfig)
 	maxDur := "10m"
 	if sc.MaxDurMs > 0 {
 		maxDur = fmt.Sprintf("%dms", sc.MaxDurMs)
